@@ -1,6 +1,7 @@
 (* C12: Gallina model of the claims codec of pkg/oidc.
    Go                                         Gallina
-   mergeAndMarshalClaims (util.go)            encode  (registered pairs overlaid on the custom map)
+   mergeAndMarshalClaims / mergeRegistered    encode  (registered pairs merged over the custom map,
+   (util.go)                                          C12_Json.merge)
    unmarshalJSONMulti    (util.go)            decode  (registered decode + custom map := whole object)
    struct tags of the *Alias types            schema_of (name, kind, omitempty), checked against
                                               reflection of the real types by the driver (ISchema)
@@ -92,6 +93,8 @@ Definition is_empty (v : fval) : bool :=
   | VMap o => match o with [] => true | _ => false end
   end.
 
+Definition actor_names : list string := ["act"; "iss"; "sub"].
+
 Definition str_pair (k s : string) : obj := if String.eqb s "" then [] else [(k, JStr s)].
 
 Definition addr_obj (a : addr) : obj :=
@@ -102,8 +105,8 @@ Definition addr_obj (a : addr) : obj :=
 Fixpoint enc_actor (a : actor) : json :=
   match a with
   | Actor act iss sub cl =>
-      JObj (overlay ((match act with Some a' => [("act", enc_actor a')] | None => [] end)
-                     ++ str_pair "iss" iss ++ str_pair "sub" sub) cl)
+      JObj (merge ((match act with Some a' => [("act", enc_actor a')] | None => [] end)
+                   ++ str_pair "iss" iss ++ str_pair "sub" sub) cl)
   end.
 
 Definition to_json (k : kind) (v : fval) : json :=
@@ -141,7 +144,7 @@ Fixpoint reg_pairs (sch : list field) (vals : list fval) : obj :=
 
 (* mergeAndMarshalClaims, as the object the produced bytes denote *)
 Definition encode (sch : list field) (vals : list fval) (claims : obj) : obj :=
-  overlay (reg_pairs sch vals) claims.
+  merge (reg_pairs sch vals) claims.
 
 (* ---------------- decoding ---------------- *)
 
@@ -447,6 +450,12 @@ Section Norm.
     bind (mapM (norm_field claims) (combine sch vals))
          (fun vs => Ok (vs, encode sch vals claims)).
 End Norm.
+
+(* documents the decode model is claimed for: encoding/json matches keys to
+   members case-insensitively; the model looks names up exactly, so a key that
+   is a non-identical case variant of a member name is outside it *)
+Definition decode_domain (sch : list field) (d : obj) : bool :=
+  forallb (fun kv => negb (fold_variant (map fname sch) (fst kv)) || string_in (fst kv) (map fname sch)) d.
 
 Fixpoint nodupb (l : list string) : bool :=
   match l with
